@@ -381,7 +381,7 @@ func genInit(t *rapid.T, kind string, exact bool) Init {
 	switch kind {
 	case "str":
 		return Init{How: "lit", S: pick(t, "inits", "hello", "abc", "", "a", "héllo", "日本語", "xy")}
-	case "st":
+	case "st", "st2":
 		return Init{How: "make"}
 	case "us", "ti", "ts", "tf", "tii":
 		if rapid.IntRange(0, 9).Draw(t, "make?") < 3 {
@@ -451,6 +451,8 @@ func genInit(t *rapid.T, kind string, exact bool) Init {
 
 var allKinds = []string{"us", "um", "str", "ti", "ts", "tf", "tii", "msi", "mis", "st"}
 
+func isStructKind(kind string) bool { return kind == "st" || kind == "st2" }
+
 func classOfKind(kind string) string {
 	switch kind {
 	case "us", "ti", "ts", "tf", "tii", "st.D":
@@ -459,7 +461,7 @@ func classOfKind(kind string) string {
 		return "map"
 	case "str", "st.B":
 		return "str"
-	case "st":
+	case "st", "st2":
 		return "struct"
 	}
 	return "scalar"
@@ -811,6 +813,10 @@ func genCase(t *rapid.T) Case {
 	for i := 0; i < n; i++ {
 		kinds = append(kinds, primary)
 	}
+	if primary == "st" && n == 2 && rapid.Bool().Draw(t, "secondstructtype") {
+		// a second anonymous struct type with the same field names at other positions
+		kinds[1] = "st2"
+	}
 	if primary == "st" {
 		// destinations for slices of s.D, s.B
 		kinds = append(kinds, "ti")
@@ -836,7 +842,7 @@ func genCase(t *rapid.T) Case {
 			slot = rapid.IntRange(0, len(kinds)-1).Draw(t, "slot")
 		}
 		fld := ""
-		if kinds[slot] == "st" && rapid.IntRange(0, 9).Draw(t, "field?") < 6 {
+		if isStructKind(kinds[slot]) && rapid.IntRange(0, 9).Draw(t, "field?") < 6 {
 			fld = choose(t, "fld", 8, "D", 6, "E", 4, "B", 1, "A", 1, "C", 1, "F")
 		}
 		c.Steps = append(c.Steps, genStep(t, kinds, slot, fld))
